@@ -513,10 +513,82 @@ func init() {
 		default:
 			res = in.sqlSelect(db, st, variadic(a[3]))
 		}
+		// the statement was accepted, fetching its row may still fail (dropped connection, statement killed, ...)
+		if res.err == "" && in.maybeFault("read", "sql.fetch") {
+			res = sqlRowResult{err: "driver: bad connection"}
+		}
 		cell := new(Value)
 		*cell = Struct{}
 		in.side[cell] = &res
 		return cell
+	})
+	// the multi-row API over the same single-row results (the metastore's statements return at most one row)
+	reg("(*database/sql.DB).QueryContext", func(in *Interp, fr *frame, a []Value) Value {
+		db := in.sqlDBOf(a[0])
+		db.queries++
+		q := a[2].(Str)
+		if !q.IsConc() {
+			panic(inconclusive{"symbolic SQL text"})
+		}
+		st, e := sqlParse(q.S, db.dialect)
+		if e == "" && st.kind != "select" {
+			e = "statement does not return rows"
+		}
+		if e != "" {
+			return Tuple{(*Value)(nil), in.errorValue(e)}
+		}
+		res := in.sqlSelect(db, st, variadic(a[3]))
+		if res.err != "" {
+			return Tuple{(*Value)(nil), in.errorValue(res.err)}
+		}
+		rs := &sqlRowsState{res: res}
+		if in.maybeFault("read", "sql.fetch") {
+			rs.fetchErr = "driver: bad connection"
+		}
+		cell := new(Value)
+		*cell = Struct{}
+		in.side[cell] = rs
+		return Tuple{cell, nilError()}
+	})
+	rowsOf := func(in *Interp, v Value) *sqlRowsState {
+		p, _ := v.(*Value)
+		rs, ok := in.side[p].(*sqlRowsState)
+		if !ok {
+			panic(inconclusive{"sql.Rows not produced by the SQL model"})
+		}
+		return rs
+	}
+	reg("(*database/sql.Rows).Next", func(in *Interp, fr *frame, a []Value) Value {
+		rs := rowsOf(in, a[0])
+		rs.current = false
+		if rs.closed || rs.fetchErr != "" || rs.consumed || rs.res.vals == nil {
+			rs.closed = true
+			return Bool{C: false}
+		}
+		rs.consumed, rs.current = true, true
+		return Bool{C: true}
+	})
+	reg("(*database/sql.Rows).Err", func(in *Interp, fr *frame, a []Value) Value {
+		rs := rowsOf(in, a[0])
+		if rs.fetchErr != "" {
+			return in.errorValue(rs.fetchErr)
+		}
+		return nilError()
+	})
+	reg("(*database/sql.Rows).Close", func(in *Interp, fr *frame, a []Value) Value {
+		rs := rowsOf(in, a[0])
+		rs.closed, rs.current = true, false
+		return nilError()
+	})
+	reg("(*database/sql.Rows).Scan", func(in *Interp, fr *frame, a []Value) Value {
+		rs := rowsOf(in, a[0])
+		if rs.closed && !rs.current {
+			return in.errorValue("sql: Rows are closed")
+		}
+		if !rs.current {
+			return in.errorValue("sql: Scan called without calling Next")
+		}
+		return in.sqlScanInto(rs.res.vals, variadic(a[1]))
 	})
 	reg("(*database/sql.Row).Scan", func(in *Interp, fr *frame, a []Value) Value {
 		p, _ := a[0].(*Value)
@@ -531,33 +603,7 @@ func init() {
 			g := in.prog.ImportedPackage("database/sql").Var("ErrNoRows")
 			return (*in.global(g)).(Iface)
 		}
-		dest := variadic(a[1])
-		if len(dest) != len(res.vals) {
-			return in.errorValue(fmt.Sprintf("sql: expected %d destination arguments in Scan, not %d", len(res.vals), len(dest)))
-		}
-		for i, d := range dest {
-			dp, ok := d.(Iface).V.(*Value)
-			if !ok || dp == nil {
-				return in.errorValue("sql: Scan destination is not a pointer")
-			}
-			switch (*dp).(type) {
-			case Str:
-				s, ok := res.vals[i].(Str)
-				if !ok {
-					return in.errorValue("sql: Scan error: unsupported conversion into string")
-				}
-				*dp = s
-			case TimeV:
-				t, ok := res.vals[i].(TimeV)
-				if !ok {
-					return in.errorValue("sql: Scan error: unsupported conversion into time.Time")
-				}
-				*dp = t
-			default:
-				panic(inconclusive{"sql Scan destination type"})
-			}
-		}
-		return nilError()
+		return in.sqlScanInto(res.vals, variadic(a[1]))
 	})
 	reg("(*database/sql.Row).Err", func(in *Interp, fr *frame, a []Value) Value {
 		p, _ := a[0].(*Value)
@@ -632,4 +678,40 @@ func init() {
 		return Bool{C: re.MatchString(src.S)}
 	})
 	_ = token.ADD
+}
+
+type sqlRowsState struct {
+	res                       sqlRowResult
+	fetchErr                  string
+	consumed, current, closed bool
+}
+
+// sqlScanInto copies one result row into Scan's destinations.
+func (in *Interp) sqlScanInto(vals []Value, dest []Value) Value {
+	if len(dest) != len(vals) {
+		return in.errorValue(fmt.Sprintf("sql: expected %d destination arguments in Scan, not %d", len(vals), len(dest)))
+	}
+	for i, d := range dest {
+		dp, ok := d.(Iface).V.(*Value)
+		if !ok || dp == nil {
+			return in.errorValue("sql: Scan destination is not a pointer")
+		}
+		switch (*dp).(type) {
+		case Str:
+			s, ok := vals[i].(Str)
+			if !ok {
+				return in.errorValue("sql: Scan error: unsupported conversion into string")
+			}
+			*dp = s
+		case TimeV:
+			t, ok := vals[i].(TimeV)
+			if !ok {
+				return in.errorValue("sql: Scan error: unsupported conversion into time.Time")
+			}
+			*dp = t
+		default:
+			panic(inconclusive{"sql Scan destination type"})
+		}
+	}
+	return nilError()
 }
